@@ -10,6 +10,7 @@ observable and checked against generic invariants.
 from .. import flowcheck
 from .. import floworacle as fo
 from .. import floworacle_r3 as f3
+from .. import floworacle_r4 as f4
 
 LEAN_MODULES = ['Props.C03']
 TRUSTED = ['harness/flow_impl.py (yaml renderer, canonicaliser, virtual clock, scripted random.uniform)',
@@ -27,7 +28,11 @@ def run(env, res):
                 'None/0/\'\'/False/[]/{}, 12% with a malformed group body or sequence item, 35% written in another '
                 'yaml layout: flow style, JSON, first step on line 1, other indentation, single-quoted / plain / block scalars, anchors + aliases, merge keys; every 4th case runs with the root logger at DEBUG, every 8th at INFO, every 8th at NOTIFY - the log level is an input); a case is '
                 'non-trivial when the model accepts it and it terminates; distinct by canonical program text')
-    directed = [('c03-restore', fo.c03_family, env.n(220, 100000)), ('c03-restore-midloop', fo.c03_midloop_family, env.n(60, 100000)),
+    directed = [('c03-group-sequence-kinds', f4.c03_group_kinds_family, env.n(160, 100000)),
+                ('c03-groups-from-loop-counter', f4.c03_group_counter_family, env.n(60, 100000)),
+                ('c02-config-in-context-twice', f4.c02_config_in_context_family, env.n(90, 100000)),
+                ('c02-jump-config-in-context', f4.c02_jump_config_in_context_family, env.n(10, 100000)),
+                ('c03-restore', fo.c03_family, env.n(220, 100000)), ('c03-restore-midloop', fo.c03_midloop_family, env.n(60, 100000)),
                 ('c03-switch', fo.c03_switch_family, env.n(48, 100000)), ('c03-jump', fo.c03_jump_family, env.n(22, 100000)),
                 ('c03-falsy-call', fo.c03_falsy_call_family, env.n(20, 100000)),
                 ('c03-counter-names', fo.c03_counter_names_family, env.n(24, 100000)),
